@@ -1,7 +1,7 @@
 (** * pubd/Rsync.v - [RsyncdStore::write] as a list of file-system operations
 
     Executable model (definitions only) of src/server/pubd/rsync.rs 72-190:
-      1. create rsync/tmp-<serial> (83-98);
+      1. remove rsync/tmp-<serial> if it exists (83-101, since e2447e97) and create it (103-118);
       2. save every object of the snapshot under it at the path of its URI relative to the
          base URI (100-114; an object outside the base is an error);
       3. if rsync/current exists: remove rsync/old if it exists (124-139, since e1f99c61), then
@@ -23,6 +23,14 @@ Open Scope N_scope.
 Inductive variant : Type := Pinned | Repaired.
 (** The procedure of the tree under /repo. *)
 Definition rsync_variant : variant := Repaired.
+
+(** What happens to an existing rsync/tmp-<serial> before it is filled: since commit e2447e97 it
+    is removed first ([FreshTmp], rsync.rs 83-101, the code of record); before that it was filled
+    as it was ([KeepTmp]), so that files an earlier, failed or interrupted write for the same
+    serial had put there ended up in rsync/current (serials recur after a session reset: finding
+    F11f, kept as a regression example). *)
+Inductive tmpmode : Type := KeepTmp | FreshTmp.
+Definition rsync_tmp_mode : tmpmode := FreshTmp.
 
 Definition rsync_dir : path := [NRsync].
 Definition current_dir : path := [NRsync; NCurrent].
@@ -56,11 +64,17 @@ Fixpoint file_ops (base : jail) (t : path) (o : objects) : list fsop :=
       end
   end.
 
-Definition rsync_write_ops_v (v : variant) (f : fs) (base : jail) (serial : N) (o : objects) : list fsop :=
+Definition clean_phase (tm : tmpmode) (f : fs) (serial : N) : list fsop :=
+  match tm with
+  | FreshTmp => if fs_exists (tmp_dir serial) f then [ORemoveTree (tmp_dir serial) false] else []
+  | KeepTmp => []
+  end.
+
+Definition rsync_write_ops_v (v : variant) (tm : tmpmode) (f : fs) (base : jail) (serial : N) (o : objects) : list fsop :=
   let t := tmp_dir serial in
   let cur := fs_exists current_dir f in
   let old := fs_exists old_dir f in
-  [OMkdirAll t] ++ file_ops base t o
+  clean_phase tm f serial ++ [OMkdirAll t] ++ file_ops base t o
   ++ (if cur
       then (match v with Repaired => if old then [ORemoveTree old_dir false] else [] | Pinned => [] end)
            ++ [ORename current_dir old_dir false]
@@ -68,7 +82,7 @@ Definition rsync_write_ops_v (v : variant) (f : fs) (base : jail) (serial : N) (
   ++ [ORename t current_dir false]
   ++ (if cur || old then [ORemoveTree old_dir false] else []).
 
-Definition rsync_write_ops : fs -> jail -> N -> objects -> list fsop := rsync_write_ops_v rsync_variant.
+Definition rsync_write_ops : fs -> jail -> N -> objects -> list fsop := rsync_write_ops_v rsync_variant rsync_tmp_mode.
 
 (** ** Reading a tree back *)
 (** Files below [root], by relative path. *)
@@ -80,6 +94,9 @@ Definition tree_of (root : path) (f : fs) : list (path * fcontent) :=
 (** Nothing is left of an earlier attempt for this serial. *)
 Definition tmp_clean (serial : N) (f : fs) : bool :=
   forallb (fun e => negb (under (tmp_dir serial) (fst e))) f.
+(** The tree is a tree at rsync/tmp-<serial>: if that directory does not exist nothing exists
+    below it. *)
+Definition tmp_wf (serial : N) (f : fs) : bool := fs_exists (tmp_dir serial) f || tmp_clean serial f.
 
 (** rsync/old is absent or an empty directory. *)
 Definition old_harmless (f : fs) : bool :=
@@ -133,20 +150,22 @@ Fixpoint written (base : jail) (o : objects) (rel : path) : option N :=
 
 (** ** Full statements (RsyncProofs.v) *)
 (** "an interrupted write never prevents later writes": whatever prefix of a write was executed,
-    a later write whose files can be written completes. True of the repaired procedure
-    ([rsync_recovers_after_cut]), false of the pinned one ([rsync_interrupted_then_stuck]). *)
-Definition rsync_never_stuck (v : variant) : Prop :=
+    a later write whose files can be written completes. True of the repaired switch
+    ([rsync_recovers_after_cut]), false of the one before e1f99c61
+    ([rsync_interrupted_then_stuck]). *)
+Definition rsync_never_stuck (v : variant) (tm : tmpmode) : Prop :=
   forall f base serial o n serial' o',
     Shape f ->
-    let f1 := fst (run (firstn n (rsync_write_ops_v v f base serial o)) f) in
-    snd (run (files_phase base serial' o') f1) = true ->
-    snd (run (rsync_write_ops_v v f1 base serial' o') f1) = true.
+    let f1 := fst (run (firstn n (rsync_write_ops_v v tm f base serial o)) f) in
+    snd (run (clean_phase tm f1 serial' ++ files_phase base serial' o') f1) = true ->
+    snd (run (rsync_write_ops_v v tm f1 base serial' o') f1) = true.
 
 (** "the rsync tree equals the snapshot after every successful write", whatever an earlier
-    attempt for the same serial left in rsync/tmp-<serial> (false: candidate F11f). *)
-Definition rsync_equals_snapshot_unconditional (v : variant) : Prop :=
+    attempt for the same serial left in rsync/tmp-<serial>. True since e2447e97
+    ([rsync_equals_snapshot_after_success]), false before ([KeepTmp], finding F11f). *)
+Definition rsync_equals_snapshot_unconditional (v : variant) (tm : tmpmode) : Prop :=
   forall f base serial o f',
-    AllInside base o -> RelInjective base o -> NoDupO o ->
-    run (rsync_write_ops_v v f base serial o) f = (f', true) ->
+    tmp_wf serial f = true -> AllInside base o -> RelInjective base o -> NoDupO o ->
+    run (rsync_write_ops_v v tm f base serial o) f = (f', true) ->
     forall rel c, fs_file (current_dir ++ rel) f' = Some c <->
                   exists k ob, In (k, ob) o /\ rel_of base k = Some rel /\ c = CData (DObj (o_content ob)).
